@@ -1296,7 +1296,23 @@ class Message(ABC):
         self._serialized_on_wire = True
         proto_meta = self._betterproto
         read = 0
-        for parsed in load_fields(stream):
+        fields = load_fields(stream)
+        # Only read another field while the declared size is not exhausted; an
+        # empty message (size 0) must not consume anything from the stream.
+        while size is None or read < size:
+            parsed = next(fields, None)
+            if parsed is None:
+                break
+
+            # Account for every field, known or not.
+            read += len(parsed.raw)
+            if size is not None and read > size:
+                raise ValueError(
+                    f"Expected message of size {size}, can only read "
+                    f"either {read - len(parsed.raw)} or {read} bytes - there is no "
+                    "message of the expected size in the stream."
+                )
+
             field_name = proto_meta.field_name_by_number.get(parsed.number)
             if not field_name:
                 self._unknown_fields += parsed.raw
@@ -1344,19 +1360,6 @@ class Message(ABC):
                 current.extend(value)
             else:
                 setattr(self, field_name, value)
-
-            # If we have now loaded the expected length of the message, stop
-            if size is not None:
-                prev = read
-                read += len(parsed.raw)
-                if read == size:
-                    break
-                elif read > size:
-                    raise ValueError(
-                        f"Expected message of size {size}, can only read "
-                        f"either {prev} or {read} bytes - there is no "
-                        "message of the expected size in the stream."
-                    )
 
         if size is not None and read < size:
             raise ValueError(
